@@ -95,7 +95,7 @@ SeqItems(i) == LET ks == SeqOfIndex(NVariants, i - 1, 1) IN [j \in 1..Len(ks) |-
 
 -----------------------------------------------------------------------------
 (* field variants inside each kind of container *)
-NFieldVariants == 12
+NFieldVariants == 13
 FV(k, j, idx) ==   \* j-th field of the container; idx used by messages
   LET nm == Nm("f", j) IN
   CASE k = 1 -> PlainF(nm, P("int32"), idx)
@@ -109,6 +109,7 @@ FV(k, j, idx) ==   \* j-th field of the container; idx used by messages
     [] k = 9 -> PlainF(nm, P("int16"), idx) @@ ("idxlit" :> ("0" \o ToString(idx)))   \* message indices are decimal: 010 is ten
     [] k = 10 -> Fd(nm, P("uint16"), idx, "first the attribute", LineDoc(" then the doc"), <<>>, "") @@ ("attrfirst" :> TRUE)
     [] k = 12 -> Fd(nm, P("int64"), idx, EmptyDep, NoDoc, <<>>, "")          \* [deprecated("")]: deprecated, with an empty reason
+    [] k = 13 -> Fd(nm, P("uint32"), idx, "50% done, %d of %s, 100%", NoDoc, <<>>, "")     \* (a message is text, not a format)
     [] k = 11 -> Fd(nm, P("string"), idx, "above a tag", NoDoc, << Tag("db:\"" \o nm \o "\"", "db", nm, FALSE) >>, "") @@ ("attrfirst" :> TRUE)
 
 MaxItems == IF Tier = "thorough" THEN 3 ELSE 2
